@@ -65,11 +65,13 @@ fn main() {
          EVERY single-bit flip of the answer response and of the DNSKEY response (whole message), ~150 single-field \
          replacements / re-made RRSIGs (type covered, labels 0..n+1, original TTL, key tag, algorithm, signer name, other \
          keys: other ZSK, no-ZONE key, revoked key, injected attacker key, sibling-zone key) / records added-removed / \
-         received TTLs / DNSKEY-set edits, a clock grid (now = inception/expiration -2..+2, midpoints, +-2^31; windows \
+         received TTLs / DNSKEY-set edits, an injection family (ONE extra record at every position of the answer section that \
+         differs from a genuine record in exactly one of RDATA / class {CH,HS,NONE,ANY,0x00fe} / TTL / owner case / owner, plus \
+         class + new RDATA), a clock grid (now = inception/expiration -2..+2, midpoints, +-2^31; windows \
          plain, across the u32 wrap, lengths 0,1,2^31-1,2^31,2^31+1) applied to the answer RRSIG and to the DNSKEY RRSIG, \
          and all op sequences of length 4 (quick) / 5 (thorough) over {validate x 4 worlds, validate via a clone of the \
          handle, advance 1 s, jump to t0+99/100/101/301/1001} on one shared handle. Oracle: only-if acceptance predicate \
-         (12 clauses, refpred.rs) on the mutated bytes with vref::sigref + ring at the time of EACH validate; TTL of Secure \
+         (12 clauses, refpred.rs), applied PER RECORD to the RRset (same owner, CLASS, type) the returned record is a member of, on the mutated bytes with vref::sigref + ring at the time of EACH validate; TTL of Secure \
          records <= expiration - now. distinct_nontrivial = cases where the reference rejects with exactly ONE failing \
          clause (they tell the reference from the predicate without that clause).",
     );
@@ -115,6 +117,7 @@ fn main() {
         let mut v = vec![];
         v.push(Block::Flip(FlipBlock::new(b)));
         v.push(Block::List(gen::field_replacements(b)));
+        v.push(Block::List(gen::injections(b)));
         v.push(Block::List(gen::clock_grid(b, thorough)));
         build.lock().unwrap().push((i as usize, v));
     });
